@@ -672,7 +672,8 @@ def _annot_fs(annot):
 
 
 def _coverage(annot_t):
-    return {(k, q): {p for f, l, _, _ in ls for p in range(f, l + 1)} for k, q, ls in annot_t}
+    """Per-base coverage; a span too long to enumerate is kept as the interval itself."""
+    return {(k, q): {p for f, l, _, _ in ls for p in (range(f, l + 1) if l - f <= 100000 else [("span", f, l)])} for k, q, ls in annot_t}
 
 
 def _explain(got, exp):
@@ -969,7 +970,9 @@ def oracle(case):
         t = op.split()
         if t[0] == "new":
             start, letters, annot = int(t[1]), ("" if t[2] == "_" else t[2]), _parse_annot(t[3])
-            w.step(op)
+            got = w.step(op)
+            if w.cur is None:
+                return v + [("C13/construct/raises", f"{op}: {got}")]
             v += _construction_checks(w.cur, start, letters, annot)
             continue
         n = len(letters)
@@ -1508,6 +1511,27 @@ def _gen_refusals(rng):
     return _case("refusals", start, letters, annot, ops)
 
 
+def _gen_huge(rng):
+    """Positions are unbounded Python ints: locations at and beyond +-(2**63-1) (where a sentinel such as sys.maxsize would
+    sit), sliced with an omitted start, an omitted stop, both, and explicit bounds of the same size."""
+    M = 2 ** 63 - 1
+    pts = [M - 2, M - 1, M, M + 1, M + 5, 2 ** 70, -M + 1, -M, -M - 1, -M - 2, -M - 6, -2 ** 70, 0, 3, -7, 40]
+    annot = []
+    for _ in range(rng.randint(1, 3)):
+        locs = []
+        for _ in range(rng.randint(1, 3)):
+            a, b = sorted((rng.choice(pts), rng.choice(pts)))
+            if rng.random() < 0.3:
+                b = a + rng.randint(0, 3)
+            locs.append((a, b, rng.choice("+-"), rng.choice([0, 0, 1, 2, 3, 16])))
+        annot.append((rng.randint(0, 3), rng.randint(0, 2), list(dict.fromkeys(locs))))
+    ops = ["aslice - -", f"aslice {rng.choice(pts)} -", f"aslice - {rng.choice(pts)}", f"aslice {rng.choice([0, -M - 1, M - 1, M, M + 1])} -",
+           f"aslice - {rng.choice([5, M - 1, M, M + 1, M + 6])}"]
+    a, b = sorted((rng.choice(pts), rng.choice(pts)))
+    ops += [f"aslice {a} {b}", f"aslice {a} {a + 1}", "count", "range"]
+    return _case("huge", 1, "ACGT", annot, ops)
+
+
 def _gen_malformed(rng):
     """Outside the theorem hypotheses: slices leaving the sequence or reversed, features outside the sequence,
     mixed strands, wrong-length values.  Only the correspondence (and 'never an unexpected exception class') applies."""
@@ -1561,14 +1585,16 @@ def _exhaustive(max_len):
 def cases(rng, tier):
     quick = tier == "quick"
     plan = [("aslice", 260), ("slice", 300), ("slice-overhang", 120), ("feature", 260), ("revcomp", 120), ("copy", 100), ("malformed", 140),
-            ("history", 200), ("refusals", 150)]
+            ("history", 200), ("refusals", 150), ("huge", 80)]
     mult = 2 if quick else 40
     gens = {"aslice": _gen_aslice, "slice": _gen_slice, "slice-overhang": lambda r: _gen_slice(r, overhang=True), "feature": _gen_feature,
-            "revcomp": _gen_revcomp, "copy": _gen_copy, "malformed": _gen_malformed, "history": _gen_history, "refusals": _gen_refusals}
+            "revcomp": _gen_revcomp, "copy": _gen_copy, "malformed": _gen_malformed, "history": _gen_history, "refusals": _gen_refusals, "huge": _gen_huge}
     for kind, cnt in plan:
         for _ in range(cnt * mult):
             c = gens[kind](rng)
             c["spell"] = rng.randrange(4620)       # how the same arguments are spelled on the implementation side
+            if kind == "huge":
+                c["spell"] -= c["spell"] % 7       # positions beyond int64 exist as Python ints only
             yield c
     for i, c in enumerate(_exhaustive(3 if quick else 6)):
         c["spell"] = (i * 7) % 4620
@@ -1599,6 +1625,9 @@ def corpus():
         _case("feature", 1, "ACGTACGTAC", [], ["getf 0/0/2:3:+:0,2:6:+:1,2:9:+:2,2:4:+:3", "getf 0/0/2:9:-:0,5:9:-:1,7:9:-:2,3:9:-:4"]),
         # open bound with a position beyond -sys.maxsize (known finding: the sentinel cuts the location)
         _case("aslice", 1, "ACGT", [(0, 0, [(-9223372036854775812, 3, "+", 0)])], ["aslice - 10", "aslice -9223372036854775812 10"]),
+        # … and the same on the right: a location ending at / beyond sys.maxsize with an omitted stop
+        _case("aslice", 1, "ACGT", [(0, 0, [(5, 9223372036854775807, "+", 0), (9223372036854775810, 9223372036854775815, "-", 1)]), (1, 0, [(-3, 9223372036854775806, "+", 0)])],
+              ["aslice 2 -", "aslice - -", "aslice 9223372036854775807 -", "aslice 2 9223372036854775900"]),
         # the upstream unit test's data
         _case("slice", 1, "ATGGCGTACGATTAGAAAAAAA", [(0, 0, [(1, 2, "+", 0), (11, 12, "+", 0)]), (0, 1, [(16, 22, "+", 0)])],
               ["int 2", "slice - 16", "slice 16 -", "slice 1 17", "getf 0/0/1:2:+:0,11:12:+:0", "getf 1/1/1:4:-:0,8:12:-:0"]),
